@@ -107,11 +107,12 @@ St(pc_, alive_, spin_, c_, g_) == [pc |-> pc_, alive |-> alive_, spin |-> spin_,
 
 J(s) == Len(s.c.rs) + 1          \* index of the datagram being processed
 
-PickC(sc, key, Dom) == IF Scripted(sc) THEN {sc[key]} \cap Dom ELSE Dom
+\* a decision the recorded run never took ("na": the concretiser chose freely) is open
+PickC(sc, key, Dom) == IF Scripted(sc) /\ sc[key] # "na" THEN {sc[key]} \cap Dom ELSE Dom
 \* behind the last recorded datagram there is silence (nothing else was sent)
 PickG(s, sc, key, Dom) ==
   IF ~Scripted(sc) THEN Dom
-  ELSE IF J(s) <= Len(sc.rs) THEN {sc.rs[J(s)][key]} \cap Dom
+  ELSE IF J(s) <= Len(sc.rs) THEN (IF sc.rs[J(s)][key] = "na" THEN Dom ELSE {sc.rs[J(s)][key]} \cap Dom)
   ELSE IF key = "sz" THEN {"none"} ELSE {}
 
 (***************************************************************************)
